@@ -2,7 +2,7 @@
 # run every quick check (listed properties and growth checks) on /repo's working tree with the default seed; evidence files are rewritten
 cd "$(dirname "$0")/.."
 rm -f replays/*.json
-for c in C01 C02 C03 C04 C05 C06 C07 C08 C09 C10 C11 C12 C13 C14 C15 C16 C17 C18 C19 C20 G01 G02 G03 G04 G05 G06 G07 G08 G09 G10 G11 G12 G13 G14; do
+for c in C01 C02 C03 C04 C05 C06 C07 C08 C09 C10 C11 C12 C13 C14 C15 C16 C17 C18 C19 C20 G01 G02 G03 G04 G05 G06 G07 G08 G09 G10 G11 G12 G13 G14 G15; do
   out=$(./check $c 2>&1); rc=$?
   echo "$c exit=$rc $(echo "$out" | grep -E '^\[' | tail -1)"
   [ $rc != 0 ] && echo "$out" | grep -E "key:|MACHINERY|Traceback" | head -4
